@@ -1,6 +1,7 @@
 import CppUModel.Base.Proto
 import CppUModel.Model.MockValue
 import CppUModel.Model.MockNamedValueList
+import CppUModel.Model.MockEntry
 import CppUModel.Gen.MockEquals
 /-!
 Driver for C09.
@@ -121,6 +122,15 @@ def obsNat (tag : String) (obs : List (List String)) : Option Nat :=
 def nameArg (w : String) : Option (Option Bytes) :=
   if w == "null" then some none else (bytes? w).map fun b => some (cstr b)
 
+/-- `<entry>.<kind>:<n>` -/
+def apiTok (tok : String) : Option (String × String × Int) :=
+  match tok.splitOn ":" with
+  | [ek, n] =>
+    match ek.splitOn ".", n.toInt? with
+    | [e, k], some v => some (e, k, v)
+    | _, _ => none
+  | _ => none
+
 def setRepo (st : DState) (i : Nat) (r : Repo) : DState := { st with repos := st.repos.set i r }
 
 def modelStep (st : DState) (op : List String) (obs : List (List String)) : DState × List String :=
@@ -128,6 +138,15 @@ def modelStep (st : DState) (op : List String) (obs : List (List String)) : DSta
   | ["eq", ta, tb] =>
     match mvalOf st ta, mvalOf st tb with
     | some (a, _, _), some (b, _, _) => (st, [s!"r {b01 (Gen.MockEquals.equalsGen a b)} {b01 (Gen.MockEquals.equalsGen b a)}"])
+    | _, _ => (st, ["bad-op"])
+  | ["eqapi", te, ta] =>
+    -- the value each entry point creates is looked up in the regenerated wiring (Model/MockEntry.lean); the expectation's
+    -- `equals` is what `MockCheckedExpectedCall::hasInputParameter` asks
+    match apiTok te, apiTok ta with
+    | some (ea, ek, ev), some (aa, ak, av) =>
+      match entryValue "expected" ea ek ev, entryValue "actual" aa ak av with
+      | some e, some a => (st, [s!"p {b01 (Gen.MockEquals.equalsGen e a)}"])
+      | _, _ => (st, ["bad-op"])
     | _, _ => (st, ["bad-op"])
   | ["compat", ta, tb] =>
     match mvalOf st ta, mvalOf st tb with
@@ -325,6 +344,28 @@ def specOp (o : Proto.Op) : Except String Unit := do
     | some (e1, e2) =>
       if x != b01 e1 then throw s!"a.equals(b) = {x}, must be {b01 e1}"
       if y != b01 e2 then throw s!"b.equals(a) = {y}, must be {b01 e2}"
+  | ["eqapi", te, ta] =>
+    -- whichever way the two values enter (C++ overload, explicit C++ method, C interface): the call matches the expectation
+    -- exactly when they are the same integer
+    let parse (t : String) : Except String Int :=
+      match t.splitOn ":" with
+      | [ek, n] =>
+        match ek.splitOn ".", n.toInt? with
+        | [e, k], some v =>
+          if !(e == "ovl" || e == "exp" || e == "c") then .error s!"{t}: unknown entry point" else
+          match intRange k with
+          | some (lo, hi) => if lo ≤ v ∧ v ≤ hi then .ok v else .error s!"{t}: value outside the range of the type"
+          | none => .error s!"{t}: not an integer kind"
+        | _, _ => .error s!"{t}: malformed"
+      | _ => .error s!"{t}: malformed"
+    let e ← parse te
+    let a ← parse ta
+    let ls := o.obs.filter fun l => l.head? == some "p"
+    match ls with
+    | [[_, r]] =>
+      let want := b01 (e == a)
+      if r != want then throw s!"scenario {if r == "1" then "passed" else "failed"}, must {if e == a then "pass" else "fail"}: expected parameter {e}, actual parameter {a}"
+    | _ => throw "no scenario result"
   | ["get", ta] =>
     let a ← svalOf ta
     match a with
